@@ -161,3 +161,44 @@ Definition calc_ld (legacy : bool) (target : Z) (gs : list gvar) (lines : list h
 Definition calc_ld_cli (legacy : bool) (target : Z) (gs : list gvar) (lines : list hline)
            (keep : list bool) (ids : option (list Z)) (from_gts : bool) : res (list row) :=
   calc_ld legacy target gs lines keep (if legacy then ids else option_map dedup ids) from_gts.
+
+(* ---- the tree before fixes/C16_empty_haplotype.patch -------------------------------------------
+   [hap_dosage] of a haplotype WITHOUT V lines is 2 for every kept sample (the conjunction over no
+   allele holds on both strands); this is what Haplotypes.transform always computed for a LISTED
+   haplotype (np.all over an empty axis).  For the TARGET, Haplotype.transform built the array of
+   wanted allele indices as np.array([[ [k] for ... ]]): shape (1, 0) instead of (1, 0, 1) when there
+   is no V line, and comparing it with the (n, 0, 2) calls raised ValueError ("operands could not be
+   broadcast together") in every mode.  Only on an array without cells - GenotypesVCF.read leaves
+   shape (0, 0, 0) when no record was selected; GenotypesPLINK keeps (n, 0, 3) - did the comparison
+   pass; then nothing was listed with --from-gts (no record loaded), and without it
+   Haplotypes.transform raised ValueError ("could not broadcast input array from shape (0,0) into
+   shape (0,2)") as soon as another haplotype was to be listed.
+   [Some r]: the target is a haplotype without V lines, the pinned tree answered [r];
+   [None]: it is not, the pinned tree is [calc_ld false]. *)
+Definition pinned_empty_target (vcf : bool) (target : Z) (gs : list gvar) (lines : list hline)
+           (ids : option (list Z)) (from_gts : bool) : option (res (list row)) :=
+  let hs := load_haps (if from_gts then None else option_map (fun l => target :: l) ids) lines in
+  match find_hap target hs with
+  | Some h =>
+      match h_vars h with
+      | _ :: _ => None
+      | [] =>
+          let loaded :=
+            if from_gts then match ids with Some l => filter (fun g => memZ (gv_id g) l) gs | None => gs end
+            else filter (fun g => memZ (gv_id g) (flat_map (fun h => map fst (h_vars h)) hs)) gs in
+          Some (if vcf && match loaded with [] => true | _ :: _ => false end
+                then (if from_gts then Ok []
+                      else match remove_hap target hs with [] => Ok [] | _ :: _ => Err E_Value end)
+                else Err E_Value)
+      end
+  | None => None
+  end.
+
+(* the entry point with the switch: [empty_ok = true] the repaired tree *)
+Definition calc_ld_sw (empty_ok vcf : bool) (target : Z) (gs : list gvar) (lines : list hline)
+           (keep : list bool) (ids : option (list Z)) (from_gts : bool) : res (list row) :=
+  if empty_ok then calc_ld false target gs lines keep ids from_gts
+  else match pinned_empty_target vcf target gs lines ids from_gts with
+       | Some r => r
+       | None => calc_ld false target gs lines keep ids from_gts
+       end.
